@@ -795,8 +795,78 @@ def decoder_replay(doc, inp, r, work, root, repo):
     doc['native'] = 'not-reproduced'; doc['native_observed'] = p.stdout.decode()[-200:]
 decoder_replay.history_search = True
 
+BUILDER_DRIVER = r'''
+using namespace ASAM::CMP;
+// Payload builders (C13 C20 C12): every builder is called on objects with random PRIOR state (fresh, built from random wire bytes, or already filled with longer /
+// shorter data) and the raw bytes are compared with an expectation written from the wire layout: header bytes kept (zero where the object was shorter), length / DLC /
+// count fields, data, NUL terminator, zero padding to even length, total size; the library's own validator must accept the result and the getters return the input.
+static uint64_t S = 0x2545F4914F6CDD1Dull; static uint64_t rnd() { S ^= S << 13; S ^= S >> 7; S ^= S << 17; return S; }
+static int fails = 0;
+#define CHECK(c, ...) do { if (!(c)) { if (fails < 8) { printf("VIOLATED: "); printf(__VA_ARGS__); printf("\n"); } ++fails; } } while (0)
+static std::vector<uint8_t> rbytes(size_t n) { std::vector<uint8_t> v; v.reserve(n + 1); v.resize(n); for (auto& b : v) b = (uint8_t)(rnd() | 1); return v; }   // non-zero: stale bytes are visible
+static std::vector<uint8_t> raw(const Payload& p) { return std::vector<uint8_t>(p.getRawPayload(), p.getRawPayload() + p.getLength()); }
+static int dlcOf(unsigned n) { if (n <= 8) return (int)n; switch (n) { case 12: return 9; case 16: return 10; case 20: return 11; case 24: return 12; case 32: return 13; case 48: return 14; case 64: return 15; } return -1; }
+template <class P> static P prior(size_t hdr) {   // an object in an arbitrary earlier state
+  switch (rnd() % 3) { case 0: return P(); default: { auto b = rbytes(hdr + rnd() % 90); return P(b.data(), b.size()); } } }
+static void keep(const char* what, const std::vector<uint8_t>& before, const std::vector<uint8_t>& after, size_t upto) {
+  for (size_t i = 0; i < upto && i < after.size(); ++i) { uint8_t exp = i < before.size() ? before[i] : 0; if (after[i] != exp) { CHECK(false, "%s: header byte %zu changed from %02x to %02x", what, i, exp, after[i]); return; } } }
+static size_t strl(size_t n) { return (n + 1) + ((n + 1) & 1); }
+int main(int argc, char** argv) {
+  long N = argc > 1 ? atol(argv[1]) : 4000;
+  for (long it = 0; it < N && fails < 8; ++it) {
+    { bool fd = rnd() & 1; unsigned n = rnd() % 3 ? (unsigned[]){0, 1, 7, 8, 12, 16, 20, 24, 32, 48, 64}[rnd() % 11] : rnd() % 256; auto d = rbytes(n);
+      auto chk = [&](CanPayloadBase& p, const char* w) { auto b = raw(p); if (rnd() & 1) { auto d0 = rbytes(rnd() % 256); p.setData(d0.data(), (uint8_t)d0.size()); b = raw(p); }
+        p.setData(d.data(), (uint8_t)n); auto a = raw(p);
+        CHECK(a.size() == 16 + n, "%s setData(%u bytes): size %zu", w, n, a.size()); if (a.size() != 16 + n) return;
+        keep(w, b, a, 14); CHECK(a[15] == n, "%s data length field %u for %u bytes", w, a[15], n); CHECK(a[14] <= 15 && (dlcOf(n) < 0 || a[14] == dlcOf(n)), "%s DLC %u for %u bytes", w, a[14], n);
+        CHECK(n == 0 || memcmp(&a[16], d.data(), n) == 0, "%s data bytes", w); CHECK(p.getDataLength() == n && (n == 0 || memcmp(p.getData(), d.data(), n) == 0), "%s getters", w); };
+      if (fd) { auto p = prior<CanFdPayload>(16); chk(p, "CanFdPayload"); } else { auto p = prior<CanPayload>(16); chk(p, "CanPayload"); } }
+    { unsigned n = rnd() % 256; auto d = rbytes(n); auto p = prior<LinPayload>(8); auto b = raw(p); p.setData(d.data(), (uint8_t)n); auto a = raw(p);
+      CHECK(a.size() == 8 + n, "LinPayload size"); if (a.size() == 8 + n) { keep("LinPayload", b, a, 7); CHECK(a[7] == n, "LinPayload length field"); CHECK(n == 0 || memcmp(&a[8], d.data(), n) == 0, "LinPayload data"); CHECK(LinPayload::isValidPayload(a.data(), a.size()), "LinPayload not self-valid"); } }
+    { unsigned n = rnd() % 4 ? rnd() % 300 : rnd() % 65530; auto d = rbytes(n); auto p = prior<EthernetPayload>(6); auto b = raw(p); p.setData(d.data(), (uint16_t)n); auto a = raw(p);
+      CHECK(a.size() == 6 + (size_t)n, "EthernetPayload size"); if (a.size() == 6 + (size_t)n) { keep("EthernetPayload", b, a, 4); CHECK(((a[4] << 8) | a[5]) == (int)n, "EthernetPayload length field"); CHECK(n == 0 || memcmp(&a[6], d.data(), n) == 0, "EthernetPayload data"); } }
+    { unsigned n = rnd() % 400; auto d = rbytes(n); auto p = prior<AnalogPayload>(16); auto b = raw(p); p.setData(d.data(), n); auto a = raw(p);
+      CHECK(a.size() == 16 + (size_t)n, "AnalogPayload size"); if (a.size() == 16 + (size_t)n) { keep("AnalogPayload", b, a, 16); CHECK(n == 0 || memcmp(&a[16], d.data(), n) == 0, "AnalogPayload data"); } }
+    { unsigned c = rnd() % 9, v = rnd() % 9; auto ids = rbytes(c), vd = rbytes(v); auto p = prior<InterfacePayload>(40); auto b = raw(p);
+      if (rnd() & 1) { auto i0 = rbytes(2 + rnd() % 8), v0 = rbytes(rnd() % 8); p.setData(i0.data(), (uint16_t)i0.size(), v0.data(), (uint16_t)v0.size()); b = raw(p); }
+      p.setData(ids.data(), (uint16_t)c, vd.data(), (uint16_t)v); auto a = raw(p); size_t pad = c & 1, exp = 36 + 2 + c + pad + 2 + v;
+      CHECK(a.size() == exp, "InterfacePayload setData(%u ids, %u vendor bytes): size %zu expected %zu", c, v, a.size(), exp);
+      if (a.size() == exp) { keep("InterfacePayload", b, a, 36); CHECK(((a[36] << 8) | a[37]) == (int)c, "InterfacePayload stream id count field"); CHECK(c == 0 || memcmp(&a[38], ids.data(), c) == 0, "InterfacePayload stream ids");
+        CHECK(!pad || a[38 + c] == 0, "InterfacePayload: padding byte after %u stream ids is %02x, not 00", c, a[38 + c]); CHECK(((a[38 + c + pad] << 8) | a[39 + c + pad]) == (int)v, "InterfacePayload vendor length field");
+        CHECK(v == 0 || memcmp(&a[40 + c + pad], vd.data(), v) == 0, "InterfacePayload vendor data"); CHECK(a[29] > 2 || InterfacePayload::isValidPayload(a.data(), a.size()), "InterfacePayload not self-valid");     /* (an interface status byte > 2 left over from the prior state is rejected by design) */ } }
+    { std::string st[4]; for (auto& x : st) { size_t n = rnd() % 12; for (size_t i = 0; i < n; ++i) x.push_back((char)('A' + rnd() % 26)); }
+      auto big = rbytes(64); std::vector<uint8_t> vd = rbytes(rnd() % 7); CaptureModulePayload p; auto b = raw(p);
+      if (rnd() & 1) { std::string l0(20 + rnd() % 10, 'z'); std::vector<uint8_t> v0 = rbytes(9); p.setData(l0, l0, l0, l0, v0); b = raw(p); }
+      size_t views[4]; for (int k = 0; k < 4; ++k) views[k] = st[k].size();
+      // string_views that are NOT NUL-terminated: prefixes of longer texts
+      std::string ext[4]; for (int k = 0; k < 4; ++k) ext[k] = st[k] + "#tail";
+      p.setData(std::string_view(ext[0].data(), views[0]), std::string_view(ext[1].data(), views[1]), std::string_view(ext[2].data(), views[2]), std::string_view(ext[3].data(), views[3]), vd); auto a = raw(p);
+      size_t off = 26; bool ok = true;
+      for (int k = 0; k < 4 && ok; ++k) { size_t L = strl(views[k]); if (off + 2 + L > a.size()) { ok = false; break; }
+        CHECK((size_t)((a[off] << 8) | a[off + 1]) == L, "CaptureModulePayload string %d length field", k); CHECK(views[k] == 0 || memcmp(&a[off + 2], st[k].data(), views[k]) == 0, "CaptureModulePayload string %d bytes", k);
+        for (size_t i = views[k]; i < L; ++i) CHECK(a[off + 2 + i] == 0, "CaptureModulePayload string %d (\"%s\"): terminator / padding byte %zu is %02x, not 00", k, st[k].c_str(), i - views[k], a[off + 2 + i]);
+        off += 2 + L; }
+      CHECK(ok && a.size() == off + 2 + vd.size(), "CaptureModulePayload total size %zu", a.size());
+      if (ok && a.size() == off + 2 + vd.size()) { keep("CaptureModulePayload", b, a, 26); CHECK((size_t)((a[off] << 8) | a[off + 1]) == vd.size(), "CaptureModulePayload vendor length"); CHECK(vd.empty() || memcmp(&a[off + 2], vd.data(), vd.size()) == 0, "CaptureModulePayload vendor data");
+        CHECK(CaptureModulePayload::isValidPayload(a.data(), a.size()), "CaptureModulePayload not self-valid"); CHECK(p.getSerialNumber() == st[1] && p.getDeviceDescription() == st[0], "CaptureModulePayload string getters"); } } }
+  printf("violations=%d\n", fails); return fails ? 3 : 0; }
+'''
+
+def builder_replay(doc, inp, r, work, root, repo):
+    """payload builders: native search over prior object states and inputs against a byte-level expectation written from the wire layout"""
+    code = PRE + BUILDER_DRIVER
+    exe = build_driver(work, repo, 'drv_builder', code)
+    doc['native_expected'] = 'violations=0 (byte-level expectation from the wire layout, self-validity, getters)'
+    doc['native_call'] = 'payload builder search: 4000 rounds over all builders, random prior object state'; doc['replay_driver'] = code; doc['replay_argv'] = ['4000']
+    p = subprocess.run([exe, '4000'], stdout=subprocess.PIPE, stderr=subprocess.PIPE, timeout=900, env=dict(os.environ, ASAN_OPTIONS='detect_leaks=0'))
+    if p.returncode != 0:
+        doc['native_observed'] = p.stdout.decode()[-2000:]; doc['native_stderr'] = san_summary(p.stderr.decode()) if p.stderr else ''; doc['native'] = 'reproduced'; return
+    doc['native'] = 'not-reproduced'; doc['native_observed'] = p.stdout.decode()[-200:]
+builder_replay.history_search = True
+
 def family_of(r, root):
     name = r['name']
+    if re.match(r'^h_(CanPayloadBase|LinPayload|EthernetPayload|AnalogPayload|InterfacePayload|CaptureModulePayload)_(setData|fillWithString|encodeDlc)$', name): return builder_replay
     if name in ('h_Decoder_decode', 'h_Endpoint_op_eq', 'h_EndpointHash', 'h_SegmentedPacket_make', 'h_SegmentedPacket_getPacket'): return decoder_replay
     if name.startswith('h_TECMP_'): return tecmp_replay
     if name.startswith(('h_Status_', 'h_DeviceStatus_', 'h_InterfaceStatus_')): return status_replay
